@@ -194,6 +194,9 @@ class GenA:
         self.n_plate = 0
         self.n_sol = 0
         self.n_hold = 0
+        self.used_names = set()
+        self.mirror = None
+        self.only_plate = None
         self.pending = []
 
     # ---- magnitudes
@@ -213,15 +216,94 @@ class GenA:
         for _ in range(rng.randint(1, 2)):
             evs.append(self.ev_new_plate())
         rng.shuffle(evs)
+        if rng.random() < self.p.get('p_mirror', 0.1):
+            evs += self.mirror_setup()
         return evs
+
+    def mirror_setup(self):
+        """Two plates of one make, dosed alike from two differently named stocks of one composition: their wells are equal
+        as values (same name 'well A,1', same contents) but have different histories.  Later some operations are applied
+        to both plates in turn - anything keyed by value equality alone then confuses the two."""
+        import copy
+        rng = self.rng
+        s1 = self.ev_new_container(boundary=rng.choice(['inf', 'roomy']))
+        if not s1['contents']:
+            return [s1]
+        s2 = copy.deepcopy(s1)
+        s2['name'] = f"V{self.n_cont}"
+        self.n_cont += 1
+        pa = self.ev_new_plate()
+        pb = copy.deepcopy(pa)
+        pb['name'] = f"P{self.n_plate}"
+        self.n_plate += 1
+        self.mirror = (pa['name'], pb['name'])
+        nr = pa['rows'] if isinstance(pa['rows'], int) else len(pa['rows'])
+        nc = pa['cols'] if isinstance(pa['cols'], int) else len(pa['cols'])
+        sel = gen_selector(rng, (nr, nc))
+        # a modest portion per well
+        try:
+            val, unit = M.parse_quantity(s1['contents'][0][1])
+        except Exception:
+            return [s1, s2, pa, pb]
+        ms = self.W.msubs[s1['contents'][0][0]]
+        vol = ms.amount_from(abs(val), unit) * ms.per_amount('L')
+        capv = M.parse_quantity(pa['cap'])[0] if pa.get('cap') else None
+        per = vol / (nr * nc * 4)
+        if capv is not None:
+            per = min(per, capv / 4)
+        if per <= 0:
+            return [s1, s2, pa, pb]
+        q = fmt_quantity(rng, round_sig(rng, float(per), True), 'L')
+        self.pending.append({'op': 'transfer', 'src': [s1['name'], -1], 'dst': [pa['name'], -1, sel], 'q': q, 'obs': rng.randrange(1 << 30)})
+        self.pending.append({'op': 'transfer', 'src': [s2['name'], -1], 'dst': [pb['name'], -1, sel], 'q': q, 'obs': rng.randrange(1 << 30)})
+        return [s1, s2, pa, pb]
+
+    def mirrored_event(self):
+        """An operation on the first mirror plate, queued again for the second."""
+        import copy
+        rng = self.rng
+        pa, pb = self.mirror
+        for _ in range(8):
+            op = rng.choice(['fill_to', 'fill_to', 'remove', 'transfer'])
+            self.only_plate = pa
+            try:
+                ev = getattr(self, 'gen_' + op)()
+            finally:
+                self.only_plate = None
+            if ev is None:
+                continue
+            refs = [ev[f] for f in ('src', 'dst', 'tgt') if isinstance(ev.get(f), list)]
+            if not any(r[0] == pa for r in refs) or any(r[0] == pb for r in refs):
+                continue
+            twin = copy.deepcopy(ev)
+            for f in ('src', 'dst', 'tgt'):
+                if isinstance(twin.get(f), list) and twin[f][0] == pa:
+                    twin[f][0] = pb
+                    twin[f][1] = -1
+                if isinstance(ev.get(f), list) and ev[f][0] == pa:
+                    ev[f][1] = -1
+            twin['obs'] = rng.randrange(1 << 30)
+            self.pending.append(twin)
+            self.b.stats['probe:mirrored_pair'] += 1
+            return ev
+        return None
 
     def ev_new_container(self, boundary=None):
         rng = self.rng
         name = f"V{self.n_cont}"
         self.n_cont += 1
         names = self.subs_of()
+        if rng.random() < self.p.get('p_substance_named_vessel', 0.06):
+            # a bottle labelled with what it holds: the object's name coincides with a substance's name
+            cand = sorted(set(self.W.real_name[n] for n in names) - set(self.W.reg) - self.used_names)
+            if cand:
+                name = rng.choice(cand)
+                self.used_names.add(name)
         k = rng.choice([0, 1, 1, 2, 2, 3, 4]) if len(names) > 1 else rng.choice([0, 1])
         chosen = rng.sample(names, min(k, len(names)))
+        if chosen and rng.random() < self.p.get('p_repeat_content', 0.12):
+            # the same substance listed twice (two portions): the portions add up
+            chosen.insert(rng.randint(0, len(chosen)), rng.choice(chosen))
         contents = []
         vol = F(0)
         scale = self.volume_scale()
@@ -306,6 +388,8 @@ class GenA:
     def pick(self, kind, nonempty=None):
         rng = self.rng
         names = self.names(kind)
+        if kind == 'plate' and self.only_plate is not None and self.only_plate in names:
+            names = [self.only_plate]
         if not names:
             return None
         name = rng.choice(names)
@@ -325,6 +409,10 @@ class GenA:
         ops = list(w)
         if self.pending:
             return self.pending.pop(0)
+        if self.mirror is not None and rng.random() < 0.3:
+            ev = self.mirrored_event()
+            if ev is not None:
+                return ev
         for _ in range(20):
             op = rng.choices(ops, weights=[w[o] for o in ops])[0]
             ev = getattr(self, 'gen_' + op)()
